@@ -1087,7 +1087,7 @@ def run(ctx: core.Ctx):
         traces = dev + sharp + rest[: max(0, 2600 - len(dev) - len(sharp))]
     ctx.set("traces_with_untyped_literal_in_subgraph", sum(1 for c in traces if untyped_literal_in_subgraph(c)))
     ctx.set("traces_with_literal_loop_carried_operand", sum(1 for c in traces if literal_carried(c)))
-    for k in rng.sample(range(len(traces)), min(len(traces), 500 if q else 4000)):
+    for k in rng.sample(range(len(traces)), min(len(traces), int(os.environ.get("VERIF_BLD_SAMPLE", 0)) or (500 if q else 4000))):
         traces[k]["_bld"] = True
     obs = core.pmap_safe(_trace_worker, traces, timeout=120)
     items = []
@@ -1127,7 +1127,7 @@ def run(ctx: core.Ctx):
         trees = pren + nested + attr + dev + rest[: max(cap // 3, cap - len(pren) - len(nested) - len(attr) - len(dev))]
     ctx.set("trees_with_prenamed_container_child", sum(1 for c in trees if prenamed(c)))
     ctx.set("trees_with_populated_container_nested", sum(1 for c in trees if populated_before_attach(c) == 2))
-    for k in rng.sample(range(len(trees)), min(len(trees), 400 if q else 4000)):
+    for k in rng.sample(range(len(trees)), min(len(trees), int(os.environ.get("VERIF_BLD_SAMPLE", 0)) or (400 if q else 4000))):
         trees[k]["_bld"] = True
     tobs = core.pmap_safe(replay_tree, trees, timeout=120)
     tsel = set(rng.sample(range(len(trees)), min(len(trees), 250 if q else 3000)))
@@ -1222,6 +1222,19 @@ def replay(ctx, path):
         blob = json.load(f)
     case = blob["case"]
     print(blob.get("what"))
+    if "trace_full" in case:
+        # a recorded builder trace that BuilderApply.tla rejected: validate the recorded trace again (the verdict names the clause)
+        from . import bldtrace
+
+        t = dict(case["trace_full"], id="replay/0")
+        verdicts, notes = bldtrace.validate(ctx, [t], "replay")
+        idx, clause, _ = verdicts["replay/0"]
+        print(f"BuilderApply.tla verdict: event {idx}: {clause}; soft clauses: {notes.get('replay/0', [])}")
+        if 0 < idx <= len(t["events"]):
+            print("offending event:", json.dumps(t["events"][idx - 1]))
+        bad = idx != 0 or bool(notes.get("replay/0"))
+        print("recorded trace accepted now" if not bad else "recorded trace still rejected")
+        return 1 if bad else 0
     if case.get("kind") == "tree":
         o = replay_tree({"hist": case["hist"], "pol": case["pol"], "rootkind": case["rootkind"], "rootname": case["rootname"]})
         print(json.dumps({k: v for k, v in o.items() if k not in ("abstract", "nodes")}, indent=1))
